@@ -452,7 +452,13 @@ package stick
 // A11 (trusted, not proved): states are separate — executing on one state does not modify the list of
 // scope maps of another state's scope stack (ownership of backing arrays is not modelled).
 //@   trusts sep: forall p, i :: allocated(p) && p != old(s.scope) && 0 <= i && i < old(len(fld("stick.scopeStack", "scopes", p))) ==> fld("stick.scopeStack", "scopes", p)[i] == old(fld("stick.scopeStack", "scopes", p)[i])
+// C09: every alias is looked up in the used template's blocks as they were written - not in a table that already holds
+// other aliases (with a as b, b as c: c is U's b, whatever order the aliases are processed in)
+//@   loop 1 invariant tab: aliased != nil && (forall k:strkey :: in(aliased, k) ==> blocks != nil)
+//@   loop 2 invariant tab: aliased != nil && (forall k:strkey :: in(aliased, k) ==> blocks != nil)
+//@   loop 1 invariant snapshot: forall k:strkey :: in(blocks, k) == entry(in(blocks, k)) && (in(blocks, k) ==> blocks[k] == entry(blocks[k]))
 //@   loop 1 invariant frame: xinv(s) && s.scope == old(s.scope) && len(s.scope.scopes) == old(len(s.scope.scopes)) && (forall i trig :: 0 <= i && i < len(s.scope.scopes) ==> s.scope.scopes[i] == old(s.scope.scopes[i])) && s.name == old(s.name) && s.current == old(s.current) && s.env == old(s.env) && len(s.blocks) >= old(len(s.blocks)) && (forall p trig :: allocated(p) && p != old(s.scope) ==> fld("stick.scopeStack", "scopes", p) == old(fld("stick.scopeStack", "scopes", p))) && s.out == old(s.out) && (forall w trig :: allocated(w) ==> rbuflen(w) == old(rbuflen(w)) && rbufdata(w) == old(rbufdata(w))) && (wfail() ==> old(wfail())) && openfiles() == old(openfiles()) && (wafterfail() ==> old(wafterfail()) || old(wfail()))
+//@   loop 2 invariant frame: xinv(s) && s.scope == old(s.scope) && len(s.scope.scopes) == old(len(s.scope.scopes)) && (forall i trig :: 0 <= i && i < len(s.scope.scopes) ==> s.scope.scopes[i] == old(s.scope.scopes[i])) && s.name == old(s.name) && s.current == old(s.current) && s.env == old(s.env) && len(s.blocks) >= old(len(s.blocks)) && (forall p trig :: allocated(p) && p != old(s.scope) ==> fld("stick.scopeStack", "scopes", p) == old(fld("stick.scopeStack", "scopes", p))) && s.out == old(s.out) && (forall w trig :: allocated(w) ==> rbuflen(w) == old(rbuflen(w)) && rbufdata(w) == old(rbufdata(w))) && (wfail() ==> old(wfail())) && openfiles() == old(openfiles()) && (wafterfail() ==> old(wafterfail()) || old(wfail()))
 
 //@ func stick.(*state).walkSetNode
 // C12: the executor never marks a value safe by itself (only the raw / escape filters and the host do)
